@@ -86,6 +86,55 @@ Example C17_args_ok_sat : args_ok k_linalg_dtypes [VTok 1; VNone; VTok 16] = tru
                           args_ok k_fast_computations [VBool true; VBool false; VBool true] = true.
 Proof. split; reflexivity. Qed.
 
+(* REFINEMENT of the reference stack semantics (srun, Generic.v: Enter pushes the current store and applies
+   spec_enter for the arguments the object was constructed with - for composites the documented argument of every
+   part -, Exit pops): at EVERY point of a well-nested history - pre h st: balanced pieces separated by the enters
+   of the blocks st that are still open - the store of the model is the store of the reference semantics.  So inside
+   a block every slot has the value given by the innermost open context that addresses it (per-dtype contexts:
+   only the slots whose argument was given, whenever and wherever the object was constructed, also when it is
+   re-entered or re-used), every other slot is as outside, and after an exit everything is as before the enter.
+   news_ok: linalg_dtypes is constructed with dtypes or None (args_ok). *)
+Notation srun' := (srun cid gs get set kid kind_of spec_new).
+Theorem C17_refines_spec : forall h st, pre kid h st -> news_ok kid args_ok h ->
+  forall g objs specs s', wfobjs' objs -> good cid penter kind_of specs objs -> run' h (g, objs) = Some s' ->
+  exists specs' stk', srun' h (g, specs, []) = Some (fst s', specs', stk') /\ map fst stk' = st /\
+    good cid penter kind_of specs' (snd s') /\ wfobjs' (snd s').
+Proof.
+  exact (refines_spec_generic cid gs get set get_set_eq get_set_neq set_get set_set set_comm penter pexit restore_law
+           kid new new_nodup kind_of reenter_law spec_new args_ok new_carries).
+Qed.
+
+Corollary C17_refines_spec_initial : forall h st, pre kid h st -> news_ok kid args_ok h -> forall s',
+  run' h (gs0, []) = Some s' ->
+  exists specs' stk', srun' h (gs0, [], []) = Some (fst s', specs', stk') /\ map fst stk' = st.
+Proof. exact refines_spec_initial. Qed.
+
+(* entering an object leaves its later enters (re-entry while active, re-use after exit) with the same effect *)
+Theorem C17_reenter_same_effect : forall c sv o sv1 o1 sv' sv2 o2,
+  penter c sv o = Some (sv1, o1) -> penter c sv' o1 = Some (sv2, o2) -> exists o2', penter c sv' o = Some (sv2, o2').
+Proof. exact reenter_law. Qed.
+
+(* non-vacuity of C17_refines_spec: a prefix with two open blocks; the float-only context constructed FIRST and
+   entered inside the double-only one leaves the double slot of the enclosing block in force *)
+Example C17_refines_nonvacuous :
+  let h := [New kid k_cholesky_jitter [VTok 1005; VNone; VNone]; New kid k_cholesky_jitter [VNone; VTok 1007; VNone];
+            Enter kid 1; Enter kid 0] in
+  pre kid h [0; 1] /\ news_ok kid args_ok h /\
+  exists s', run' h (gs0, []) = Some s' /\
+             get c_cholesky_jitter (fst s') = SV VNone VNone (VTok 1005) (VTok 1007) VNone.
+Proof.
+  split; [|split].
+  - apply (pre_open kid ([New kid k_cholesky_jitter [VTok 1005; VNone; VNone];
+                          New kid k_cholesky_jitter [VNone; VTok 1007; VNone]] ++ [Enter kid 1]) 0 [] [1]).
+    + apply (pre_open kid [New kid k_cholesky_jitter [VTok 1005; VNone; VNone];
+                           New kid k_cholesky_jitter [VNone; VTok 1007; VNone]] 1 [] []).
+      * apply pre_bal. apply (bal_app kid [_] [_]); apply bal_new.
+      * apply bal_nil.
+    + apply bal_nil.
+  - intros k a Hin. simpl in Hin. repeat (destruct Hin as [Hin|Hin]; [inversion Hin; reflexivity|]). destruct Hin.
+  - eexists; split; vm_compute; reflexivity.
+Qed.
+
 (* non-vacuity: a concrete nested, interleaved history with re-use and a context created before
    another one is entered runs without error on the generated model and is well nested *)
 Example C17_nonvacuous :
